@@ -15,6 +15,7 @@ import Driver.Val
 import Driver.Table
 import Driver.MMap
 import Driver.StdWrap
+import Driver.Ver
 /-!
   momo_model: reads operation lines on stdin, prints one output line per operation.
   First line: `model <name> key=value …` selects the model. Lines starting with `#` are echoed.
@@ -23,6 +24,7 @@ open Driver
 
 def engines : List (String × Engine) := [
   ("stdwrap", Driver.StdWrap.engine),
+  ("ver", Driver.Ver.engine),
   ("probe", Driver.Probe.engine),
   ("obj", Driver.Obj.engine),
   ("rows", Driver.Rows.engine),
